@@ -54,6 +54,10 @@ class Obs:
 
     def before_phantoms(self, run, contests):
         """an earlier, partial delivery of CVRs went through phantom creation with the same Contest objects"""
+        # a record of some other election, built without contests before any of this happens: it must stay empty
+        self.bystander = run.ns.CVR(id="bystander")
+        if self.bystander.votes:  # (left behind by an earlier run in this process: start clean, verdicts are per run)
+            self.bystander.votes.clear()
         if not run.case.get("pre_delivery") or len(run.cvr_list) < 2:
             return
         ns = run.ns
@@ -296,6 +300,12 @@ class Obs:
 
     def after_setup(self, run):
         out = self.out
+        by = getattr(self, "bystander", None)
+        if by is not None and by.votes:
+            out.violate("C08.b", f"bystander/{run.world['audit_type']}/style={run.use_style}",
+                        f"a record built without contests before phantom creation lists {sorted(by.votes)} after the set-up "
+                        f"(phantoms / pooling wrote into a dict it shares)")
+            by.votes.clear()
         self.manifest_lookups(run)
         if run.polling:
             return
